@@ -89,7 +89,7 @@ def rule_forwards_is_embed_mask(check, rule, rule_partial):
                                 witness='forwards(o, i, 1, "x", hide_args=True) == embed(o, mask(i, 1, "x", hide_args=True))')
         else:
             check.holds(rule, st, 'forwards() = embed(outer, mask(inner, num_args, *named_args, hide flags), use flags)', key=key, effect=show(v)[:300])
-    check.floor(rule, 'returning paths of forwards()', n, 2)
+    check.floor(rule, 'returning paths of forwards()', n, 1)
     # ---- partial rewrite: every non-star parameter becomes optional, stars are kept
     outcomes = _partial_rewrite_outcomes(it, paths)
     if outcomes is None:
